@@ -197,6 +197,43 @@ def c05_require(agg):
     return need
 
 
+# ------------------------------------------------------------------ C06
+
+def c06_env(b):
+    e = {}
+    sb = [8192, 16384, 8192, None][b % 4]
+    if sb:
+        e["IPCMON_SNDBUF"] = sb
+    if b % 3 == 1:
+        e["IPCMON_WIDEN"] = "%d:%d:0" % (4 | 2, 400)
+    if b % 3 == 2:
+        e["IPCMON_DELAY"] = "%d:%d:%d" % (b + 3, 100, 300)
+    return e
+
+
+def c06_plan(tier, seed):
+    q = tier == "quick"
+    out = jobs("os-debug", "c06", 12 if q else 32, c06_env, {"cases": 12 if q else 150}, timeout=1800)
+    out += jobs("inproc-debug", "c06", 3 if q else 8, None, {"cases": 12 if q else 150}, timeout=1800)
+    return out
+
+
+def c06_require(agg):
+    st = agg["stats"]
+    need = []
+    if st.get("mon_epoll_full", 0) < 1:
+        need.append("epoll_wait never returned a full event buffer (>10 members ready at once)")
+    if st.get("mon_eintr_injected", 0) < 1:
+        need.append("no EINTR injected into the wait")
+    if st.get("real_signals_sent", 0) < 1:
+        need.append("no real signal interrupted the wait")
+    if st.get("quiesce_rounds", 0) < 20 or st.get("concurrent_rounds", 0) < 20:
+        need.append("fewer than 20 quiesce or concurrent rounds")
+    if st.get("max_members_in_one_set", 0) < 20:
+        need.append("no set with >=20 members")
+    return need
+
+
 # ------------------------------------------------------------------ C19
 
 def c19_plan(tier, seed):
@@ -250,6 +287,21 @@ NOTES = ("Runtime monitoring and sanitizers. ./check <id> rebuilds the harness (
 NOT_APPLICABLE = {}
 
 PROPS = {
+    "C06": {
+        "plan": c06_plan,
+        "require": c06_require,
+        "level": "exploration",
+        "level_text": "Exploration: receiver sets with 1..64 members (24 in quick) are driven through 2..5 rounds of bursts from 1..6 producer threads with members "
+                      "added before, during and after traffic (also with traffic or closure already queued), senders dropped at seeded points, EINTR both "
+                      "injected at epoll_wait and produced by real signals; an online oracle in the selecting thread checks per-member sequence, tags, "
+                      "closed-once, live-id uniqueness and premature closure, and quiesce rounds turn a lost wake-up into a provably stuck select (rule 3.5).",
+        "level_note": "Real signals are only sent while the selector sleeps in epoll_wait and only in single-packet scenarios, so that EINTR lands in the wait "
+                      "the statement talks about. The in-process transport is driven with the same scenarios (never selecting on an empty set).",
+        "technique": "runtime monitoring: online per-member sequence/closure oracle in the selecting thread, quiesce rounds with logical hang detection, EINTR and delay injection",
+        "rule": "case = one set scenario (members x rounds x burst plan); distinct = hash of the sequence of select batch sizes per round together with the member "
+                "count; non-trivial = at least two members",
+        "assumptions": ["epoll edge-trigger semantics of this kernel; select() is only called while the harness knows an event is owed"],
+    },
     "C05": {
         "plan": c05_plan,
         "require": c05_require,
